@@ -353,4 +353,93 @@ theorem clusters_init_flags (arms : List α) (kind : Kind) (n : Nat) (bz : Optio
   rw [hl.2]
   cases n <;> rfl
 
+/-- same configuration as the reference bandit `b0` ⇒ the side conditions carry over -/
+theorem noTsBinz_of_bsame (b b0 : Bandit α) (h : BSame b b0) (hb0 : NoTsBinz b0) : NoTsBinz b := by
+  intro l hl
+  rcases List.mem_cons.mp hl with e | hl
+  · rw [e, h.lp.kind, h.lp.binz]; exact hb0 _ List.mem_cons_self
+  · obtain ⟨y, hy, c⟩ := forall₂_mem_left h.lps l hl
+    rw [c.kind, c.binz]
+    exact hb0 y (List.mem_cons_of_mem _ hy)
+
+theorem notRandom_of_bsame (b b0 : Bandit α) (h : BSame b b0) (hrs : ∀ l ∈ b0.lps, l.kind ≠ .random) :
+    ∀ l ∈ b.lps, l.kind ≠ .random := by
+  intro l hl
+  obtain ⟨y, hy, c⟩ := forall₂_mem_left h.lps l hl
+  rw [c.kind]; exact hrs y hy
+
+/-- a `fit` of any Clusters bandit with the configuration of `b0` leaves a bandit with the configuration of `b0`
+    whose history is the new data -/
+theorem clusters_fit_keeps (b b0 : Bandit α) (n : Nat) (hnp : b.np = .clusters n) (hsame : BSame b b0)
+    (hb0 : NoTsBinz b0) (hflag : ∀ l ∈ b0.lps, l.ctxBin = (b0.lps.headD b0.lp).ctxBin) (x : Batch α) (o : Oracle) (g : Rng) :
+    BSame (b.impFit x o g).1 b0 ∧ (b.impFit x o g).1.hist = x ∧ (b.impFit x o g).1.np = .clusters n := by
+  have hb := noTsBinz_of_bsame b b0 hsame hb0
+  have h1 : ∀ y : Batch α, npBinarize (b.lps.headD b.lp) y = (b.lps.headD b.lp, y) :=
+    fun y => npBinarize_other _ (hb _ (headD_mem b.lps b.lp)) y
+  have hhead : SameCfg (b.lps.headD b.lp) (b0.lps.headD b0.lp) := forall₂_head _ _ _ _ hsame.lps hsame.lp
+  refine ⟨⟨?_, ?_, ?_, ?_, ?_⟩, ?_, ?_⟩
+  · simp only [Bandit.impFit, hnp, clustersFitOp]; rw [← hnp]; exact hsame.np
+  · simp only [Bandit.impFit, hnp, clustersFitOp]; exact hsame.arms
+  · simp only [Bandit.impFit, hnp, clustersFitOp]; exact hsame.lp
+  · simp only [Bandit.impFit, hnp, h1, clustersFitOp]
+    have : ∀ (l l' : List (LP α)) (k : Nat), List.Forall₂ SameCfg l l' → (∀ y ∈ l', y.ctxBin = (b0.lps.headD b0.lp).ctxBin) →
+        List.Forall₂ SameCfg
+          ((l.map fun z => ({ z with ctxBin := (b.lps.headD b.lp).ctxBin } : LP α)).zipIdx k |>.map fun (p : LP α × Nat) =>
+            p.1.fit ((List.zip x o.labels).filterMap fun rl => if rl.2 = p.2 then some rl.1 else none) (batchWidth x)) l' := by
+      intro l l' k hl
+      induction hl generalizing k with
+      | nil => intro _; exact List.Forall₂.nil
+      | cons hxy _ ih =>
+        intro hf
+        simp only [List.map_cons, List.zipIdx_cons]
+        refine List.Forall₂.cons ?_ (ih _ (fun y hy => hf y (List.mem_cons_of_mem _ hy)))
+        refine (SameCfg.symm (fit_sameCfg _ _ _)).trans ⟨hxy.kind, hxy.arms, hxy.keys, hxy.binz, ?_, hxy.k1, hxy.nf⟩
+        rw [hhead.ctxBin]; exact (hf _ List.mem_cons_self).symm
+    exact this b.lps b0.lps 0 hsame.lps hflag
+  · simp only [Bandit.impFit, hnp, clustersFitOp]; exact hsame.npExp
+  · simp only [Bandit.impFit, hnp, h1, clustersFitOp]
+  · simp only [Bandit.impFit, hnp, clustersFitOp]
+
+/-- **C06 (Clusters, any chunking).**  `fit` on the first chunk and `partial_fit` on every further chunk: the stored
+    history is the concatenation, and the last call leaves, cluster by cluster, the policy states a single `fit` on
+    everything leaves (k-means giving the same labels for the whole history) — up to the last Thompson draw. -/
+theorem clusters_chunked_eq_batch (b : Bandit α) (n : Nat) (hnp : b.np = .clusters n) (hb : NoTsBinz b)
+    (hrs : ∀ l ∈ b.lps, l.kind ≠ .random) (hflag : ∀ l ∈ b.lps, l.ctxBin = (b.lps.headD b.lp).ctxBin)
+    (o₀ o : Oracle) (g : Rng) (c₀ : Batch α) (init : List (Batch α)) (last : Batch α) :
+    let bk := init.foldl (fun acc c => (acc.impPartialFit c o₀ g).1) (b.impFit c₀ o₀ g).1
+    (bk.impPartialFit last o g).1.hist = (b.impFit (c₀ ++ init.flatten ++ last) o g).1.hist ∧
+    (bk.impPartialFit last o g).1.labels = (b.impFit (c₀ ++ init.flatten ++ last) o g).1.labels ∧
+    List.Forall₂ (fun x y => x.norm = y.norm) (bk.impPartialFit last o g).1.lps
+      (b.impFit (c₀ ++ init.flatten ++ last) o g).1.lps := by
+  intro bk
+  have bself : BSame b b := ⟨rfl, rfl, SameCfg.refl _, by
+    have : ∀ l : List (LP α), List.Forall₂ SameCfg l l := by
+      intro l; induction l with
+      | nil => exact List.Forall₂.nil
+      | cons x l ih => exact List.Forall₂.cons (SameCfg.refl x) ih
+    exact this b.lps, rfl⟩
+  -- invariant along the chunks: configuration of `b`, history = everything received so far
+  have key : ∀ (l : List (Batch α)) (x : Bandit α) (hx : Batch α), BSame x b → x.np = .clusters n → x.hist = hx →
+      BSame (l.foldl (fun acc c => (acc.impPartialFit c o₀ g).1) x) b ∧
+      (l.foldl (fun acc c => (acc.impPartialFit c o₀ g).1) x).np = .clusters n ∧
+      (l.foldl (fun acc c => (acc.impPartialFit c o₀ g).1) x).hist = hx ++ l.flatten := by
+    intro l
+    induction l with
+    | nil => intro x hx h1 h2 h3; simp [h1, h2, h3]
+    | cons c l ih =>
+      intro x hx h1 h2 h3
+      simp only [List.foldl_cons, List.flatten_cons]
+      have hbx := noTsBinz_of_bsame x b h1 hb
+      rw [clusters_partialFit_is_fit x n h2 hbx c o₀ g, h3]
+      obtain ⟨k1, k2, k3⟩ := clusters_fit_keeps x b n h2 h1 hb hflag (hx ++ c) o₀ g
+      have := ih _ (hx ++ c) k1 k3 k2
+      rw [List.append_assoc] at this
+      exact this
+  obtain ⟨f1, f2, f3⟩ := clusters_fit_keeps b b n hnp bself hb hflag c₀ o₀ g
+  obtain ⟨s1, s2, s3⟩ := key init _ c₀ f1 f3 f2
+  have hbk := noTsBinz_of_bsame bk b s1 hb
+  rw [clusters_partialFit_is_fit bk n s2 hbk last o g, s3]
+  obtain ⟨_, e2, e3, e4⟩ := impFit_clusters_congr bk b (c₀ ++ init.flatten ++ last) o g s1 n s2 (notRandom_of_bsame bk b s1 hrs)
+  exact ⟨e2, e3, e4⟩
+
 end Mab
